@@ -314,6 +314,7 @@ static void Doom(ProcResult::End kind, const std::string& detail) {
 struct Sys { bool doomed; int inject; };
 static int DeliverableSignal(uint64_t mask_blocked);
 static bool DeliverSignals(uint64_t mask_blocked, bool can_leave);
+static void RunDueEvents();
 
 // Every wrapper calls this first.  `cookie` callers cannot leave the process
 // (they run inside glibc stdio); they get doomed=true and must do nothing.
@@ -326,7 +327,10 @@ static Sys SysEnter(char kind, bool cookie = false) {
     return r;
   }
   int64_t idx = p->sysno++;
-  g_k->now += 200;   // a syscall takes 0.2 us of simulated time
+  // a syscall takes simulated time (a poll much more than a stat), and the
+  // children run concurrently with ninja: whatever became due happens now
+  g_k->now += kind == 'L' ? 20000 : 200;
+  RunDueEvents();
   if (p->spec.record_stats) p->res.sys_kinds.emplace_back(idx, kind);
   if (idx >= p->spec.max_syscalls) Doom(ProcResult::kBudget, "syscall budget exhausted");
   const FaultPlan& f = p->spec.faults;
@@ -354,7 +358,8 @@ static Sys SysEnter(char kind, bool cookie = false) {
 
 static bool Buggify(int per_mille) {
   if (per_mille <= 0 || !g_k->tape) return false;
-  return g_k->tape->Choice(P->spec.faults.stream, 1000) < (uint32_t)per_mille;
+  // value 0 (an exhausted, shrunk tape) means: the unusual thing does not happen
+  return g_k->tape->Choice(P->spec.faults.stream, 1000) >= (uint32_t)(1000 - per_mille);
 }
 
 // ------------------------------------------------------------------ events / blocking
@@ -376,6 +381,12 @@ static bool RunNextEvent() {
   if (t > g_k->now) g_k->now = t;
   fn();
   return true;
+}
+
+static void RunDueEvents() {
+  Kernel::Proc* p = P;
+  int guard = 0;
+  while (!p->events.empty() && p->events.begin()->first.first <= g_k->now && guard++ < 1000) RunNextEvent();
 }
 
 static int DeliverableSignal(uint64_t mask_blocked) {
